@@ -10,7 +10,7 @@ S=$(mktemp -d /dev/shm/vsim.det.XXXXXX); trap 'rm -rf "$S"' EXIT
 "$VERIF/bin/prep.sh" "$S" both || exit 2
 D=$(( ($(date +%s)+36000)*1000 ))
 fail=0
-for P in C01 C02 C03 C04 C05 C06 C07 C08 C09 C10 C11 C12 C13 C14 C15 C16 C17 C18 C19 C20; do
+for P in ${DET_PROPS:-C01 C02 C03 C04 C05 C06 C07 C08 C09 C10 C11 C12 C13 C14 C15 C16 C17 C18 C19 C20}; do
   bins="vsim"; case $P in C08|C18) bins="vsim vsim-race";; esac
   for B in $bins; do
     for G in 1 4 16; do
@@ -20,6 +20,7 @@ import sys,json
 for l in sys.stdin:
     r=json.loads(l)
     if 'begin' in r and r.get('begin') is not None: continue
+    if r.get('hb'): continue   # heartbeat lines are wall-clock driven, not part of a run
     print(r['run'], r['digest'], len(r.get('viols',[])), r.get('abort','')[:40])
 " > "$S/d_${P}_${B}_$G.txt"
     done
